@@ -69,7 +69,7 @@ Definition model_obs (b : body_case) : body_obs :=
   | RErr => err_obs
   | ROk o =>
       {| s_err := None;
-         s_same := [true; true; true; true; true; true];
+         s_same := header_same i o;
          s_ns := map (fun k => option_map e_id (lookupS k (o_ns o))) (c_keys b);
          s_slots := o_slots o;
          s_views := map (view_of (i_old i) (i_new i) (o_store o)) (c_probes b);
